@@ -387,6 +387,8 @@ def check_first_iteration_sleeps(mod, rep, rid):
 
 def _is_flag(fn, ref):
     i = fn.imap.get(ref) if isinstance(ref, str) else None
+    if i is not None and i.op == 'zext' and i.x.get('sty') == 'i1':
+        return True          # a flag computed as (comparison)
     return i is not None and i.op == 'phi' and i.ty == 'i32' and sorted(IR.ival(v) for v, _ in i.ops if IR.is_int(v)) == [0, 1]
 
 def _initial_default(fn, phi, pb):
